@@ -2,6 +2,13 @@
 # thread of the simulator) by passing a baton at sys.monitoring LINE (or
 # INSTRUCTION) events of a chosen set of functions.
 #
+# Granularities: "line" and "instruction" hand over at every LINE / INSTRUCTION
+# event (finer than CPython 3.12 itself ever switches: a superset of its
+# schedules); "switch" hands over only where CPython 3.12 really checks for a
+# pending thread switch: on entry of a Python function (a call to one, or the
+# start of a watched one), after a C function returns or raises, and on
+# backward jumps (loops) - plus acquiring / releasing the transceiver's locks.
+#
 # A schedule is (start thread, sorted switch positions): the running thread
 # hands the baton over when the global count of decision points reaches a
 # switch position.  Blocking on the transceiver's queue lock is a forced
@@ -27,6 +34,7 @@ class BatonLock:
 	def acquire(self, blocking = True, timeout = -1):
 		s = self.sched
 		me = threading.current_thread()
+		s.point()
 		while self.owner is not None and self.owner is not me:
 			self.contended += 1
 			s.contended += 1
@@ -41,6 +49,7 @@ class BatonLock:
 
 	def release(self):
 		self.owner = None
+		self.sched.point()
 
 	def __enter__(self):
 		self.acquire()
@@ -58,6 +67,7 @@ class Sched:
 		self.cond = threading.Condition()
 		self.active = False
 		self.codes = []
+		self.granularity = granularity
 		self.event = mon.events.LINE if granularity == "line" else mon.events.INSTRUCTION
 		self.contended = 0
 		self.missing = []
@@ -76,6 +86,17 @@ class Sched:
 			mon.use_tool_id(TOOL, "verif-sched")
 		except ValueError:
 			pass
+		if self.granularity == "switch":
+			E = mon.events
+			mon.register_callback(TOOL, E.PY_START, self._on_event)
+			mon.register_callback(TOOL, E.PY_RESUME, self._on_event)
+			mon.register_callback(TOOL, E.CALL, self._on_call)
+			mon.register_callback(TOOL, E.C_RETURN, self._on_event)
+			mon.register_callback(TOOL, E.C_RAISE, self._on_event)
+			mon.register_callback(TOOL, E.JUMP, self._on_jump)
+			for c in self.codes:
+				mon.set_local_events(TOOL, c, E.PY_START | E.PY_RESUME | E.CALL | E.JUMP)
+			return
 		mon.register_callback(TOOL, self.event, self._on_event)
 		for c in self.codes:
 			mon.set_local_events(TOOL, c, self.event)
@@ -86,7 +107,12 @@ class Sched:
 				mon.set_local_events(TOOL, c, 0)
 			except Exception:
 				pass
-		mon.register_callback(TOOL, self.event, None)
+		if self.granularity == "switch":
+			E = mon.events
+			for ev in (E.PY_START, E.PY_RESUME, E.CALL, E.C_RETURN, E.C_RAISE, E.JUMP):
+				mon.register_callback(TOOL, ev, None)
+		else:
+			mon.register_callback(TOOL, self.event, None)
 		try:
 			mon.free_tool_id(TOOL)
 		except Exception:
@@ -96,6 +122,9 @@ class Sched:
 	def run(self, fa, fb, start, switches, timeout = 20.0):
 		""" Run fa() and fb() in two threads under schedule (start in {0,1}, switch positions).
 		    Returns dict: trace (list of (thread, position) of executed switches), points, errors, deadlock. """
+		import gc
+		gc_was = gc.isenabled()
+		gc.disable()       # finalisers must not run at arbitrary points of a controlled run
 		self.active = True
 		self.turn = start
 		self.points = 0
@@ -135,6 +164,8 @@ class Sched:
 				self.turn = -1
 				self.cond.notify_all()
 		self.active = False
+		if gc_was:
+			gc.enable()
 		return {"trace": list(self.trace), "points": self.points, "per_thread": list(self.per_thread_points),
 			"errors": list(self.errors), "hung": hung}
 
@@ -159,6 +190,22 @@ class Sched:
 				if not self.done[1 - i]:
 					self.trace.append((i, self.per_thread_points[i]))
 					self._handover(i)
+
+	def _on_call(self, code, offset, callee, arg0):
+		# calling a Python-level callable enters its RESUME at once: a switch opportunity right here;
+		# a C callable gives one when it returns (C_RETURN / C_RAISE)
+		import types
+		if isinstance(callee, (types.FunctionType, types.MethodType, type)):
+			self._on_event(code)
+
+	def _on_jump(self, code, offset, dest):
+		if dest < offset:
+			self._on_event(code)
+
+	def point(self):
+		""" An explicit decision point (lock acquire / release at "switch" granularity). """
+		if self.granularity == "switch":
+			self._on_event(None)
 
 	def _handover(self, i):
 		""" with self.cond held: give the baton to the other thread and wait for it back """
